@@ -62,7 +62,8 @@ theorem selectBranch_eq_selectKw (T : Tables) (f : Form) (h : T.shxCodes.contain
 theorem entry_line {s : Syn} (hs : entryOk T s = true) {c : Ctx} (hc : c ∈ s.slot.ctxs) {f : Form} (hf : f ∈ s.forms)
     {m : Mode} (hm : m ∈ allModes) :
     ∃ b c', selectBranch T f = some b ∧ b.test ≠ .otherwise ∧ b.test ≠ .isAtom ∧ stepLine T m c f = .ok c' ∧
-      (s.slot.isBody = true → c ∈ bodyCtxs → c' ∈ bodyCtxs) := by
+      (s.slot.isBody = true → c ∈ bodyCtxs → c' ∈ bodyCtxs) ∧ closedAfter s.slot c' = true ∧
+      (s.slot = .body → c ∈ preCtxs → c' = c) := by
   unfold entryOk at hs
   simp only [Bool.and_eq_true] at hs
   obtain ⟨hcard, hs⟩ := hs
@@ -84,16 +85,23 @@ theorem entry_line {s : Syn} (hs : entryOk T s = true) {c : Ctx} (hc : c ∈ s.s
     | error e => rw [hr] at hrun; simp at hrun
     | ok c' =>
       rw [hr] at hrun
-      refine ⟨b, c', by rw [hsel, hk], by simpa using hne, hnot, ?_, ?_⟩
+      simp only [Bool.and_eq_true] at hrun
+      obtain ⟨⟨hbody, hclosed⟩, hpre⟩ := hrun
+      refine ⟨b, c', by rw [hsel, hk], by simpa using hne, hnot, ?_, ?_, hclosed, ?_⟩
       · have hmem : f.code ∈ T.shxCodes := by rw [hcode]; simpa using hcard
         have hat : atomTestRaises T f = false := by simp [atomTestRaises, Form.isAtomName, hmem]
         unfold stepLine; rw [hat, hsel, hk]; simpa using hr
       · intro hb hcb
-        simp only [hb, Bool.true_and, Bool.or_eq_true, Bool.not_eq_true'] at hrun
-        rcases hrun with h | h
+        simp only [hb, Bool.true_and, Bool.or_eq_true, Bool.not_eq_true'] at hbody
+        rcases hbody with h | h
         · have : bodyCtxs.contains c = true := by simpa using hcb
           rw [this] at h; exact absurd h (by decide)
         · simpa using h
+      · intro hb hcb
+        have h1 : (s.slot == Slot.body) = true := by rw [hb]; decide
+        have h2 : preCtxs.contains c = true := by simpa using hcb
+        simp only [h1, h2, Bool.and_self, Bool.not_true, Bool.false_or] at hpre
+        simpa using hpre
 
 /-! ## 3. Every handler is total on every valid form; the chain covers the syntax table -/
 
@@ -105,7 +113,7 @@ theorem handler_total : ∀ m ∈ allModes, ∀ cf ∈ allValidCases, accepts T 
   simp only [List.mem_flatMap, List.mem_map] at hcf
   obtain ⟨s, hs, c, hc, f, hf, rfl⟩ := hcf
   have hso := List.all_eq_true.mp entries_ok s hs
-  obtain ⟨b, c', _, _, _, hstep, _⟩ := entry_line hso hc hf hm
+  obtain ⟨b, c', _, _, _, hstep, _, _, _⟩ := entry_line hso hc hf hm
   simp [accepts, hstep, Except.toBool]
 
 /-- the hypothesis is met by something non-trivial: a 13-parameter HKLF is among the cases -/
@@ -124,7 +132,7 @@ theorem dispatch_covers_syntax :
   have hso := List.all_eq_true.mp entries_ok s hs
   have hctx : ∃ c, c ∈ s.slot.ctxs := by cases s.slot <;> exact ⟨_, List.mem_cons_self⟩
   obtain ⟨c, hc⟩ := hctx
-  obtain ⟨b, _, hsel, h1, h2, _, _⟩ := entry_line hso hc hf (m := .quiet) (by decide)
+  obtain ⟨b, _, hsel, h1, h2, _, _, _, _⟩ := entry_line hso hc hf (m := .quiet) (by decide)
   exact ⟨b, List.mem_of_find?_eq_some (by simpa [selectBranch] using hsel), hsel, h1, h2⟩
 
 /-! ## 3b. Atom lines -/
@@ -251,7 +259,7 @@ theorem body_step_closed :
     have hcs : c ∈ s.slot.ctxs := by
       have := List.all_eq_true.mp (body_ctxs_sub s.slot hbody) c hc
       simpa using this
-    obtain ⟨b, c', _, _, _, hstep, hcl⟩ := entry_line hso hcs hf hm
+    obtain ⟨b, c', _, _, _, hstep, hcl, _, _⟩ := entry_line hso hcs hf hm
     exact ⟨c', hcl hbody hc, hstep⟩
   · obtain ⟨hf, hp⟩ := List.mem_filter.mp hf
     exact (atoms_recognised_partial f hf hp).2 c hc m hm
@@ -314,6 +322,119 @@ theorem valid_no_raise (m : Mode) (hm : m ∈ allModes) (body : List Form) (hb :
     SpecHolds (parseAll T m (stdHeader ++ body)) (stdHeader ++ body).length := by
   obtain ⟨c, hc, hh⟩ := header_reaches_body m hm
   exact parse_reaches_end T m _ (hh body (body_lines_accepted m hm body hb c hc))
+
+/-! ## 6. Every header the grammar generates (histories of header lines) -/
+
+theorem pre_ctxs_sub : preCtxs.all (fun c => Slot.body.ctxs.contains c) = true := by decide
+
+theorem closedAfter_next {s s' : Slot} {c : Ctx} (h : closedAfter s c = true) (hs : s' ∈ s.next) : c ∈ s'.ctxs := by
+  unfold closedAfter at h
+  simp only [Bool.and_eq_true, List.all_eq_true] at h
+  simpa using h.1.1 s' hs
+
+theorem closedAfter_pre {s : Slot} {c : Ctx} (h : closedAfter s c = true) (hs : s.allowsPre = true) : c ∈ preCtxs := by
+  unfold closedAfter at h
+  simp only [Bool.and_eq_true] at h
+  have := h.1.2
+  rw [hs] at this
+  simpa using this
+
+theorem closedAfter_unit {c : Ctx} (h : closedAfter .unit c = true) : c ∈ bodyCtxs := by
+  unfold closedAfter at h
+  simp only [Bool.and_eq_true] at h
+  have := h.2
+  simpa using this
+
+/-- `header_closed`: whatever continuation of the header the grammar allows — any number of SYMM, SFAC and DISP lines
+    in any of their forms, NEUT or not, body instructions in front of SFAC — every line is accepted in the context the
+    lines before it left behind, and the line after UNIT meets a body context.  By induction over the derivation; the
+    step is the `closedAfter` clause of `entries_ok` (regenerated table): a handler that leaves a `lastcard` behind which
+    its own order test, or that of a legal successor, refuses makes `entries_ok` fail. -/
+theorem header_closed (m : Mode) (hm : m ∈ allModes) :
+    ∀ {s : Slot} {l : List Form}, Header s l → ∀ c, closedAfter s c = true → ∃ c' ∈ bodyCtxs, runLines T m c l = some c' := by
+  intro s l h
+  induction h with
+  | done => intro c hc; exact ⟨c, closedAfter_unit hc, rfl⟩
+  | @step s e f l he hn hf _ ih =>
+    intro c hc
+    have hso := List.all_eq_true.mp entries_ok e he
+    obtain ⟨_, c1, _, _, _, hstep, _, hcl, _⟩ := entry_line hso (closedAfter_next hc hn) hf hm
+    obtain ⟨c', hc', hr⟩ := ih c1 hcl
+    exact ⟨c', hc', by simp only [runLines, hstep]; exact hr⟩
+  | @pre s e f l hp he hb hf _ ih =>
+    intro c hc
+    have hso := List.all_eq_true.mp entries_ok e he
+    have hpc := closedAfter_pre hc hp
+    have hcs : c ∈ e.slot.ctxs := by
+      rw [hb]
+      have := List.all_eq_true.mp pre_ctxs_sub c hpc
+      simpa using this
+    obtain ⟨_, c1, _, _, _, hstep, _, _, hsame⟩ := entry_line hso hcs hf hm
+    have : c1 = c := hsame hb hpc
+    subst this
+    obtain ⟨c', hc', hr⟩ := ih c1 hc
+    exact ⟨c', hc', by simp only [runLines, hstep]; exact hr⟩
+
+theorem validHeader_runs (m : Mode) (hm : m ∈ allModes) {h : List Form} (hh : ValidHeader h) :
+    ∃ c' ∈ bodyCtxs, runLines T m {} h = some c' := by
+  obtain ⟨e, he, f, hf, r, hslot, rfl, hr⟩ := hh
+  have hso := List.all_eq_true.mp entries_ok e he
+  have hc0 : ({} : Ctx) ∈ e.slot.ctxs := by rw [hslot]; decide
+  obtain ⟨_, c1, _, _, _, hstep, _, hcl, _⟩ := entry_line hso hc0 hf hm
+  rw [hslot] at hcl
+  obtain ⟨c', hc', hrun⟩ := header_closed m hm hr c1 hcl
+  exact ⟨c', hc', by simp only [runLines, hstep]; exact hrun⟩
+
+/-- `valid_file_no_raise`: ANY header of the grammar (any history of header lines) followed by ANY sequence of valid
+    body lines, of any length, is parsed to its last line without exception, in each of the three modes. -/
+theorem valid_file_no_raise (m : Mode) (hm : m ∈ allModes) (h : List Form) (hh : ValidHeader h)
+    (body : List Form) (hb : ∀ f ∈ body, f ∈ bodyForms) :
+    SpecHolds (parseAll T m (h ++ body)) (h ++ body).length := by
+  obtain ⟨c, hc, hrun⟩ := validHeader_runs m hm hh
+  exact parse_reaches_end T m _ (allAccepted_append T m h {} c body hrun (body_lines_accepted m hm body hb c hc))
+
+/-- the three modes end on the same line for every such file -/
+theorem valid_file_modes_agree (h : List Form) (hh : ValidHeader h) (body : List Form) (hb : ∀ f ∈ body, f ∈ bodyForms) :
+    (parseAll T .quiet (h ++ body)).lastLine = (parseAll T .verbose (h ++ body)).lastLine ∧
+    (parseAll T .quiet (h ++ body)).lastLine = (parseAll T .debug (h ++ body)).lastLine := by
+  have a := valid_file_no_raise .quiet (by decide) h hh body hb
+  have b := valid_file_no_raise .verbose (by decide) h hh body hb
+  have c := valid_file_no_raise .debug (by decide) h hh body hb
+  unfold SpecHolds at a b c
+  exact ⟨by rw [a.2.2.2, b.2.2.2], by rw [a.2.2.2, c.2.2.2]⟩
+
+/-- the grammar generates something non-trivial: two SYMM, a body instruction and NEUT in front of two SFAC lines with
+    explicit scattering factors, one DISP per element, UNIT -/
+def sfacExplicit : List Kind := [.word, .num, .num, .num, .num, .num, .num, .num, .num, .num, .num, .num, .num, .num, .num]
+
+example : ValidHeader [
+    { kw := "TITL", toks := [.word], code := 1414091852 },
+    { kw := "CELL", toks := [.num, .big, .big, .big, .big, .big, .big], code := 1128614988 },
+    { kw := "ZERR", toks := [.int, .num, .num, .num, .num, .num, .num], code := 1514492498 },
+    { kw := "LATT", toks := [.int], code := 1279349844 },
+    { kw := "SYMM", toks := [.sym, .sym, .sym], code := 1398361421 },
+    { kw := "SYMM", toks := [.sym], code := 1398361421 },
+    { kw := "MORE", toks := [.int], code := 1297044037 },
+    { kw := "NEUT", toks := [], code := 1313166676 },
+    { kw := "SFAC", toks := sfacExplicit, code := 1397113155 },
+    { kw := "SFAC", toks := sfacExplicit, code := 1397113155 },
+    { kw := "DISP", toks := [.word, .num, .num], code := 1145656144 },
+    { kw := "DISP", toks := [.word, .num, .num, .num], code := 1145656144 },
+    { kw := "UNIT", toks := [.int, .int, .int], code := 1431193940 }] := by
+  refine ⟨syntaxTable[0], by decide +kernel, _, by decide +kernel, _, by decide +kernel, rfl, ?_⟩
+  refine .step (e := syntaxTable[1]) (by decide +kernel) (by decide +kernel) (by decide +kernel) ?_
+  refine .step (e := syntaxTable[2]) (by decide +kernel) (by decide +kernel) (by decide +kernel) ?_
+  refine .step (e := syntaxTable[3]) (by decide +kernel) (by decide +kernel) (by decide +kernel) ?_
+  refine .step (e := syntaxTable[4]) (by decide +kernel) (by decide +kernel) (by decide +kernel) ?_
+  refine .step (e := syntaxTable[4]) (by decide +kernel) (by decide +kernel) (by decide +kernel) ?_
+  refine .pre (e := syntaxTable[18]) (by decide +kernel) (by decide +kernel) (by decide +kernel) (by decide +kernel) ?_
+  refine .step (e := syntaxTable[5]) (by decide +kernel) (by decide +kernel) (by decide +kernel) ?_
+  refine .step (e := syntaxTable[6]) (by decide +kernel) (by decide +kernel) (by decide +kernel) ?_
+  refine .step (e := syntaxTable[6]) (by decide +kernel) (by decide +kernel) (by decide +kernel) ?_
+  refine .step (e := syntaxTable[7]) (by decide +kernel) (by decide +kernel) (by decide +kernel) ?_
+  refine .step (e := syntaxTable[7]) (by decide +kernel) (by decide +kernel) (by decide +kernel) ?_
+  refine .step (e := syntaxTable[8]) (by decide +kernel) (by decide +kernel) (by decide +kernel) ?_
+  exact .done
 
 example : ∀ f ∈ ([{ kw := "TEMP", toks := [] }, { kw := "C1", toks := [.int, .num, .num, .num] },
                   { kw := "HKLF", toks := [.int] }, { kw := "END", toks := [] }] : List Form), f ∈ bodyForms := by
